@@ -113,7 +113,55 @@ def frontends_pass(out, tier):
         if m2 != k:
             raise C.ToolError("corruption probe: a differing dictionary body was not rejected")
         out.cov["corruption_probe_front_ends"] = "one digit of a front end's body digest altered: rejected at that event"
+    dump_pass(out, tier, d, jobs, cli)
     return rej
+
+
+def dump_pass(out, tier, d, jobs, cli):
+    """DumpFrontEnd.tla: `sudachi dump DICT pos|matrix|winfo OUT` writes the library's read-back of the same file in the documented text
+    form.  Behaviour beyond the listed statement: a disagreement is reported as drift in the evidence, never as a violation."""
+    import subprocess
+    lp = os.path.join(d, "libdump.ndjson")
+    C.run_vh(["c05-libdump", os.path.join(d, "jobs.json"), lp])
+    libs = {e["job"]: e for e in C.read_ndjson(lp)}
+    events = []
+    for j in jobs:
+        if j["job"] not in libs:
+            continue
+        events.append(libs[j["job"]])
+        for part in ("pos", "matrix", "winfo"):
+            op = os.path.join(j["dir"], f"dump_{part}.txt")
+            if os.path.exists(op):
+                os.remove(op)
+            p = subprocess.run([cli, "dump", os.path.join(j["dir"], "lib_system.dic"), part, op], stdout=subprocess.PIPE, stderr=subprocess.PIPE, timeout=300,
+                               env=dict(os.environ, RUST_BACKTRACE="0"))
+            data = open(op, "rb").read().decode("utf-8", "replace") if os.path.exists(op) else ""
+            events.append({"ev": "fe_dump", "run": j["job"], "job": j["job"], "part": part, "exit": p.returncode, "out": [ord(ch) for ch in data]})
+    if not events:
+        raise C.ToolError("vacuous: no compiled dictionary was dumped")
+    tp = os.path.join(C.WORK, "traces", f"c05_dump_{tier}.ndjson")
+    C.write_ndjson(tp, events)
+    matched, total, r = C.tlc_trace("Trace_DumpFrontEnd", "Trace_DumpFrontEnd.cfg", tp)
+    nd = sum(1 for e in events if e["ev"] == "fe_dump")
+    out.cov["dumps_validated"] = nd if matched >= total else sum(1 for e in events[:matched] if e["ev"] == "fe_dump")
+    out.cov["evaluations"] += out.cov["dumps_validated"]
+    if matched < total:
+        bad = events[matched]
+        out.cov["drift"].append(f"`sudachi dump` differs from DumpFrontEnd.tla at event {matched + 1} of {total} (job {bad.get('job')}, part {bad.get('part')}, exit {bad.get('exit')}); "
+                                "not fixed by C05, not gating")
+        return
+    if not any(e["ev"] == "fe_dump" and e["part"] == "winfo" and 47 in e["out"] for e in events):
+        raise C.ToolError("vacuous: no dumped word had more than one split unit or synonym group")
+    # binding probe: one character of a dumped word-info file altered must be rejected at that event
+    k = next(i for i, e in enumerate(events) if e["ev"] == "fe_dump" and e["part"] == "winfo" and e["out"])
+    e2 = json.loads(json.dumps(events[:k + 1]))
+    e2[k]["out"][len(e2[k]["out"]) // 2] += 1
+    pp = os.path.join(C.WORK, "traces", "c05_probe_dump.ndjson")
+    C.write_ndjson(pp, e2)
+    m2, t2, _ = C.tlc_trace("Trace_DumpFrontEnd", "Trace_DumpFrontEnd.cfg", pp)
+    if m2 != k:
+        raise C.ToolError("corruption probe: an altered dump was not rejected")
+    out.cov["corruption_probe_dump"] = "one character of a dumped word-info file altered: rejected at that event"
 
 
 def run(tier, replay=None):
